@@ -218,59 +218,106 @@ class Interp:
             self.exec_block(st.orelse, fr)
 
     def _speculate(self, thunk, fr):
-        """Run thunk without forking, heap writes, obligations or control transfer; returns
-        (ok, locals after). The caller's locals are restored in every case."""
+        """Run thunk without forking, obligations or control transfer; scalar stores to existing attributes /
+        list slots are logged and rolled back.  Returns (ok, locals after, {location: (obj, field, value)}).
+        The caller's locals and the heap are restored in every case."""
         ctx = self.ctx
         saved = dict(fr.locals)
         nlog = len(ctx.log)
         ctx.speculating += 1
+        wlog = []
+        ctx.spec_logs.append(wlog)
+        ok = False
+        locs = None
+        writes = {}
         try:
             thunk()
-            return True, dict(fr.locals)
+            ok = True
+            locs = dict(fr.locals)
         except (SpecAbort, PyRaise, _Return, _Break, _Continue):
             del ctx.log[nlog:]
-            return False, None
         finally:
             ctx.speculating -= 1
+            ctx.spec_logs.pop()
+            # final values, then roll back in reverse order
+            for obj, field, old in wlog:
+                cur = obj.fields.get(field, _MISSING) if isinstance(obj, PObj) else obj.items[field]
+                writes.setdefault((id(obj), field), (obj, field, cur))
+            for obj, field, old in reversed(wlog):
+                if isinstance(obj, PObj):
+                    if old is _MISSING:
+                        obj.fields.pop(field, None)
+                    else:
+                        obj.fields[field] = old
+                else:
+                    obj.items[field] = old
             fr.locals.clear()
             fr.locals.update(saved)
+        return ok, locs, (writes if ok else None)
 
     def _if_convert(self, c, body, orelse, fr):
-        """If both arms only rebind scalar locals (no fork, heap write, raise, return inside),
-        merge them with if-then-else terms instead of forking the path."""
+        """If both arms only rebind scalar locals / store scalars into existing slots (no fork, structural heap
+        change, raise, return inside), merge them with if-then-else terms instead of forking the path."""
         if not self.ctx.if_conversion:
             return False
-        ok1, l1 = self._speculate(lambda: self.exec_block(body, fr), fr)
+        ok1, l1, w1 = self._speculate(lambda: self.exec_block(body, fr), fr)
         if not ok1:
             return False
-        ok2, l2 = self._speculate(lambda: self.exec_block(orelse, fr), fr)
+        ok2, l2, w2 = self._speculate(lambda: self.exec_block(orelse, fr), fr)
         if not ok2:
             return False
-        merged = {}
-        for k in set(l1) | set(l2):
-            a, b = l1.get(k, _MISSING), l2.get(k, _MISSING)
+
+        def scal(v):
+            return (sym.is_num(v) or isinstance(v, (bool, z3.BoolRef, str, SStr))) and v is not None
+
+        def merge(a, b):
             if a is b:
-                merged[k] = a
-                continue
-            if a is _MISSING or b is _MISSING:
-                return False
+                return True, a
             try:
                 same = sym.values_equal(a, b)
             except Unsupported:
                 same = False
             if same is True and not isinstance(a, (PObj, PList, PDict)):
-                merged[k] = a
-                continue
-            scal = lambda v: (sym.is_num(v) or isinstance(v, (bool, z3.BoolRef, str, SStr))) and v is not None
+                return True, a
             if not (scal(a) and scal(b)):
-                return False
+                return False, None
             if isinstance(a, (str, SStr)) != isinstance(b, (str, SStr)):
-                return False
+                return False, None
             try:
-                merged[k] = sym.ite(c, a, b)
+                return True, sym.ite(c, a, b)
             except Unsupported:
+                return False, None
+
+        merged = {}
+        for k in set(l1) | set(l2):
+            a, b = l1.get(k, _MISSING), l2.get(k, _MISSING)
+            if a is _MISSING or b is _MISSING:
+                if a is b:
+                    continue
                 return False
+            ok, v = merge(a, b)
+            if not ok:
+                return False
+            merged[k] = v
+        stores = []
+        for key in set(w1) | set(w2):
+            obj, field, _ = (w1.get(key) or w2.get(key))
+            cur = obj.fields.get(field, _MISSING) if isinstance(obj, PObj) else obj.items[field]
+            a = w1[key][2] if key in w1 else cur
+            b = w2[key][2] if key in w2 else cur
+            if a is _MISSING or b is _MISSING:
+                return False
+            ok, v = merge(a, b)
+            if not ok:
+                return False
+            stores.append((obj, field, v))
         fr.locals.update(merged)
+        for obj, field, v in stores:
+            self.ctx.on_write(obj, field, v, None)
+            if isinstance(obj, PObj):
+                obj.fields[field] = v
+            else:
+                obj.items[field] = v
         return True
 
     def st_Return(self, st, fr):
@@ -708,11 +755,22 @@ class Interp:
             if i == len(e.values) - 1:
                 return last
             t = self.truth(last, e)
+            if (not isinstance(t, bool) and self.ctx.if_conversion and i == len(e.values) - 2
+                    and sym.is_num(last) and not isinstance(last, (bool, z3.BoolRef))):
+                # numeric `a or b` / `a and b`: merge instead of forking when b evaluates without effects
+                box = {}
+
+                def rest():
+                    box["v"] = self.eval(e.values[-1], fr)
+
+                ok, _, w = self._speculate(rest, fr)
+                if ok and not w and sym.is_num(box["v"]) and not isinstance(box["v"], (bool, z3.BoolRef)):
+                    return sym.ite(t, box["v"], last) if is_and else sym.ite(t, last, box["v"])
             taken = self.ctx.branch(t, e)
             if is_and and not taken:
-                return last if not is_sym(last) else False
+                return False if isinstance(last, z3.BoolRef) else last
             if (not is_and) and taken:
-                return last if not is_sym(last) else True
+                return True if isinstance(last, z3.BoolRef) else last
         return last
 
     def ev_IfExp(self, e, fr):
@@ -732,9 +790,9 @@ class Interp:
             def t2():
                 box["b"] = self.eval(e.orelse, fr)
 
-            ok1, _ = self._speculate(t1, fr)
-            ok2, _ = self._speculate(t2, fr) if ok1 else (False, None)
-            if ok1 and ok2:
+            ok1, _, w1 = self._speculate(t1, fr)
+            ok2, _, w2 = self._speculate(t2, fr) if ok1 else (False, None, None)
+            if ok1 and ok2 and not w1 and not w2:
                 a, b = box["a"], box["b"]
                 scal = lambda v: sym.is_num(v) or isinstance(v, (bool, z3.BoolRef))
                 if scal(a) and scal(b) and a is not None and b is not None:
